@@ -27,6 +27,7 @@ vars == <<st, now, prev, last, nops, hist, ever>>
 C == [bthr |-> BThr, win |-> Win, pthr |-> PThr, sim |-> SimPm, asym |-> AsymThrPm, age |-> IF AgeIsMax THEN -1 ELSE Age, minobs |-> MinObs]
 Subs == {<<i>> : i \in 1..NSub}
 PfxOf(p) == IF p \in PfxA THEN 1 ELSE 2
+Sym == Permutations(PfxA) \cup Permutations(Peers \ PfxA)      \* peers with the same id prefix are interchangeable
 
 Init == st = Empty /\ now = 0 /\ prev = [st |-> Empty, now |-> 0] /\ last = [op |-> "init", p |-> 0, panic |-> FALSE]
         /\ nops = 0 /\ hist = {} /\ ever = {}
